@@ -2,9 +2,11 @@ use std::{borrow::Cow, fmt::Write};
 
 use jrsonnet_evaluator::{
 	bail, in_description_frame,
-	manifest::{escape_string_json_buf, ManifestFormat},
+	manifest::ManifestFormat,
 	Result, ResultExt, Val,
 };
+
+use super::escape_string_json_del_buf;
 
 pub struct YamlFormat<'s> {
 	/// Padding before fields, i.e
@@ -210,7 +212,7 @@ fn manifest_yaml_ex_buf(
 			} else if !options.quote_values && bare_safe(&s) {
 				buf.push_str(&s);
 			} else {
-				escape_string_json_buf(&s, buf);
+				escape_string_json_del_buf(&s, buf);
 			}
 		}
 		Val::Num(n) => write!(buf, "{}", *n).unwrap(),
@@ -271,7 +273,7 @@ fn manifest_yaml_ex_buf(
 				if !options.quote_keys && bare_safe(&key) {
 					buf.push_str(&key);
 				} else {
-					escape_string_json_buf(&key, buf);
+					escape_string_json_del_buf(&key, buf);
 				}
 				buf.push(':');
 				let prev_len = cur_padding.len();
